@@ -710,6 +710,58 @@ func natLayers(tier string) []Layer {
 			},
 		})
 	}
+	// N10: dense operands (every word from a fixed xorshift sequence: no structure for an estimate to be
+	// lucky on) at the lengths where the last block of the recursive division is exactly B = len(v)/2
+	// words: how far the block estimate may overshoot depends on the digits of both operands
+	{
+		streams := 64
+		if thorough {
+			streams = 1024
+		}
+		var ns []int
+		for n := 100; n <= 218; n += 2 {
+			ns = append(ns, n, n+1)
+		}
+		layers = append(layers, Layer{
+			Name:   "N10-div-dense-operands-at-block-lengths",
+			Units:  len(ns),
+			Bounds: fmt.Sprintf("u / v for len(v) = n in 100..219, len(u) = n + k·⌊n/2⌋ for k in {1,2,3}, %d fixed word sequences per (n,k) (xorshift64*, seed = (n,k,i), words mod 10^19): quotient and remainder against the schoolbook reference, no panic", streams),
+			Run: func(c *Ctx, u int) {
+				installAdvPool(4096)
+				n := ns[u]
+				B := n / 2
+				for k := 1; k <= 3; k++ {
+					m := n + B*k
+					for i := 0; i < streams; i++ {
+						if c.Done() {
+							return
+						}
+						st := uint64(n)*1000003 + uint64(k)*7919 + uint64(i)*104729 + 88172645463325252
+						next := func() uint64 {
+							st ^= st >> 12
+							st ^= st << 25
+							st ^= st >> 27
+							return (st * 2685821657736338717) % BW
+						}
+						uw, vw := make([]uint64, m), make([]uint64, n)
+						for j := range uw {
+							uw[j] = next()
+						}
+						for j := range vw {
+							vw[j] = next()
+						}
+						if uw[m-1] == 0 {
+							uw[m-1] = 1
+						}
+						if vw[n-1] == 0 {
+							vw[n-1] = 1
+						}
+						natDivCase(c, uw, vw, fmt.Sprintf("dense n=%d k=%d stream=%d", n, k, i))
+					}
+				}
+			},
+		})
+	}
 	// N7: recursive division with extreme partial remainders at a block boundary:
 	// u = ((qhi·b^B + blk)·v + rem)·b^m + low, B = len(v)/2 (the recursion's block size),
 	// so that after the block `blk` the running remainder is rem (v−1: every estimate of
